@@ -123,6 +123,8 @@ class StateGraphMonitor(Monitor):
         self.entered = {}     # (nick, inc) -> set of states published while declaring itself Master
         self.per_step = {}
         self.cycles = {}      # (nick, inc) -> [(start time, states published as Master since its last ELECTION)]
+        self.last_cut_event = -1e9
+        run.world.listeners.append(self.on_cut_event)
         self.transitions = set()
         run.world.on_hook('send_state_event', self.on_state)
 
@@ -183,11 +185,19 @@ class StateGraphMonitor(Monitor):
                     self.count('slave_entries_checked_against_master_cycle')
                     recent = any(state in cycles[i][1] for i in range(len(cycles))
                                  if i == len(cycles) - 1 or cycles[i + 1][0] > w.now - TICK)
-                    if cycles and not recent:
+                    if cycles and not recent and (w.cut or w.now - self.last_cut_event < 6 * TICK):
+                        # publications blocked by a cut link are delivered late, in order: the slave follows an old
+                        # cycle of its Master
+                        self.count('slave_entries_after_a_cut_not_judged')
+                    elif cycles and not recent:
                         self.violate(f'C02/slave-before-master-in-this-cycle:{state}',
                                      f'{inst.nick} entered {state} at vt={vt(w)} although its Master {mnick} has not '
                                      f'published it since its last ELECTION (at vt='
                                      f'{round(cycles[-1][0] - BASE_TIME, 3)}: {sorted(cycles[-1][1])})')
+
+    def on_cut_event(self, ev):
+        if ev['k'] in ('cut', 'heal'):
+            self.last_cut_event = ev['t']
 
     def local_shutdown(self, state):
         """ Mechanism qualifier: SHUTTING_DOWN entered in a run where supvisors_failure_strategy=SHUTDOWN is
